@@ -215,6 +215,78 @@ pub fn run(name: &str) -> R {
             }
             Ok("after every single write fault, a flush that returns Ok has the data in the file".into())
         }
+        // F2 (C06): extreme seek arguments are refused, not a panic
+        "c06_seek_extremes_do_not_panic" => {
+            let mut c = CompoundFile::create_with_version(Version::V3, Cursor::new(Vec::new())).unwrap();
+            let mut s = c.create_stream("/s").unwrap();
+            s.write_all(&[1u8; 10]).unwrap();
+            let mut out = Vec::new();
+            for p in [SeekFrom::End(i64::MIN), SeekFrom::Current(i64::MIN), SeekFrom::End(i64::MAX), SeekFrom::Current(i64::MAX), SeekFrom::Start(u64::MAX)] {
+                let r = s.seek(p);
+                if r.is_ok() { return Some(Err(format!("seek({p:?}) on a 10-byte stream returned {r:?}"))); }
+                let pos = s.stream_position().unwrap();
+                if pos != 10 { return Some(Err(format!("refused seek({p:?}) moved the position to {pos}"))); }
+                out.push(format!("{p:?}: refused"));
+            }
+            Ok(out.join("; "))
+        }
+        // (C11/C06) set_len with an absurd size is an error, not a panic
+        "c06_set_len_huge_does_not_panic" => {
+            let mut out = Vec::new();
+            for size in [u64::MAX, u64::MAX - 511, 1u64 << 63] {
+                let mut c = CompoundFile::create_with_version(Version::V3, Cursor::new(Vec::new())).unwrap();
+                let mut s = c.create_stream("/s").unwrap();
+                s.write_all(&[1u8; 10]).unwrap();
+                let r = s.set_len(size);
+                out.push(format!("set_len({size}) -> {:?}", r.map_err(|e| e.to_string())));
+            }
+            Ok(out.join("; "))
+        }
+        // F7 (C12): after a failed refill the handle must not serve a stale window at the new offset
+        "c12_failed_refill_serves_no_stale_bytes" => {
+            // content: byte i of the stream is (i / 1024) as u8, buffer of 1024 bytes
+            let content: Vec<u8> = (0..6000usize).map(|i| (i / 1024) as u8 + 1).collect();
+            let img = {
+                let mut c = CompoundFile::create_with_version(Version::V3, Cursor::new(Vec::new())).unwrap();
+                { let mut s = c.create_stream("/s").unwrap(); s.write_all(&content).unwrap(); }
+                c.into_inner().into_inner()
+            };
+            // count the reads of an unfaulted pass over the stream
+            let total = {
+                let st = FStore::default();
+                *st.data.borrow_mut() = Cursor::new(img.clone());
+                let mut c = cfb::OpenOptions::new().max_buffer_size(1024).open_with(st.clone()).unwrap();
+                let mut s = c.open_stream("/s").unwrap();
+                st.plan.borrow_mut().armed = true;
+                let mut v = Vec::new();
+                s.read_to_end(&mut v).unwrap();
+                let n = st.plan.borrow().reads;
+                n
+            };
+            for k in 1..=total {
+                let st = FStore::default();
+                *st.data.borrow_mut() = Cursor::new(img.clone());
+                let mut c = cfb::OpenOptions::new().max_buffer_size(1024).open_with(st.clone()).unwrap();
+                let mut s = c.open_stream("/s").unwrap();
+                { let mut p = st.plan.borrow_mut(); p.armed = true; p.fail_reads = vec![k]; }
+                let mut got = Vec::new();
+                let mut buf = [0u8; 700];
+                let mut errors = 0;
+                loop {
+                    match s.read(&mut buf) {
+                        Ok(0) => break,
+                        Ok(n) => got.extend_from_slice(&buf[..n]),
+                        Err(_) => { errors += 1; if errors > 3 { break; } }   // retry after the error
+                    }
+                }
+                let n = got.len().min(content.len());
+                if got[..n] != content[..n] || got.len() > content.len() {
+                    let i = got.iter().zip(content.iter()).position(|(a, b)| a != b).unwrap_or(n);
+                    return Some(Err(format!("read fault at underlying read #{k}: after the error the handle returned byte {:#x} at offset {i}, the stream has {:#x} there ({} bytes returned)", got[i.min(got.len() - 1)], content[i.min(content.len() - 1)], got.len())));
+                }
+            }
+            Ok(format!("a single read fault at each of {total} positions never produces wrong bytes"))
+        }
         // F9 (C15): a create / write 100 bytes / remove cycle must not grow the file from the second repetition on
         "c15_small_stream_cycle_does_not_grow" => {
             let mut out = Vec::new();
